@@ -2,8 +2,9 @@
 # development helper: confirm a seeded change (patch + demo) and run checks against it
 # usage: seed_eval.sh <dir with patch.diff, seed_demo_test.go, README.md> <name> <demo package dir relative to repo root> <Cxx> [<Cyy> ...]
 src="$1"; name="$2"; demodir="$3"; shift 3
+home=$(cd "$(dirname "$0")/.." && pwd)
 export GOFLAGS=-mod=mod GOPROXY=off GOSUMDB=off GOTOOLCHAIN=local
-wt=/tmp/wt_seed_$$
+wt=/tmp/wt_seed_$$_$name
 git -C /repo worktree add -f $wt HEAD >/dev/null 2>&1
 demo=$(ls $src/*_test.go | head -1)
 cp $demo $wt/$demodir/
@@ -12,10 +13,10 @@ if ! git -C $wt apply $src/patch.diff; then echo "PATCH DOES NOT APPLY"; git -C 
 echo "--- demo with the change:"; (cd $wt/$demodir && go test -vet=off -count=1 -run 'Seed|Demo' . 2>&1 | grep -v "^\s*$" | tail -6)
 rm $wt/$demodir/$(basename $demo)
 echo "--- existing suite with the change:"; (cd $wt && go build ./... && go build -tags verif ./... && go test -vet=off -count=1 ./... 2>&1 | grep -v "no test files" | tr '\n' ' '); echo
-mkdir -p /verif/seeded/$name
-cp $src/patch.diff $src/README.md /verif/seeded/$name/ 2>/dev/null; cp $demo /verif/seeded/$name/
+mkdir -p $home/seeded/$name
+cp $src/patch.diff $src/README.md $home/seeded/$name/ 2>/dev/null; cp $demo $home/seeded/$name/
 for prop in "$@"; do
   echo "--- ./check $prop --tier quick against the change:"
-  VERIF_REPO=$wt /verif/check $prop --tier quick 2>&1 | tail -3
+  VERIF_REPO=$wt $home/check $prop --tier quick 2>&1 | tail -3
 done
 git -C /repo worktree remove --force $wt; git -C /repo worktree prune
